@@ -34,7 +34,8 @@ MANIFEST = dict(
         "(same op at every class = scale family) and at random e in -60..60 (exact in binary floating point, no over-/underflow); expected: ranks, dominance "
         "relations, contributor indices and selected index sets IDENTICAL to the unscaled line and hypervolumes / contributions times exactly 2^(e*m) - the "
         "expected value comes from the theorems rankSpec_scale / fastSort_scale / hvSpec_scale_shift / hvQ_scale, not from a tolerance; an absolute tolerance "
-        "anywhere in these algorithms shows at some class. Tolerance inventory: translate/c13_tolerances.py regenerates on every run the list of all floating "
+        "anywhere in these algorithms shows at some class. Translation classes: dom, hv, con, ssp are also run with points and reference shifted by +-2^k, k in {20,30,40,45} "
+        "(exact; every result must be identical: rankSpec_shift, hvSpec_scale_shift), which exposes a relative tolerance (the sorts have affine images up to 2^51). Tolerance inventory: translate/c13_tolerances.py regenerates on every run the list of all floating "
         "literals with 0 < |v| < 1 and epsilon-style identifiers in the 14 anchored files (Gen/C13Tolerances.lean); Props/C13Tol.lean proves it equal to the "
         "accounted list (c13_tolerances_inventory, c13_order_algorithms_have_no_tolerance), so a new or changed tolerance breaks an obligation."),
   note=TRUST + "only partially proved (`_partial` theorems in Props/C13.lean; tied by exact correspondence + oracle on every run): (1) HypervolumeCalculatorMDHOY - cover scan, "
@@ -61,7 +62,7 @@ FINISH = dict(level="proof",
               rule="integer point sets from one SplitMix64 stream: dims 2..6, sizes 0..40 (quick) / ..300 (thorough), coordinates from small grids "
                    "(incl. negative values) with ties, duplicates, dominated and collinear points; sorts also on affine images with magnitudes up to 2^51 and at the "
                    "sizes 3^(m+1)-2..3^(m+1)+30 of the algorithm switch (one n > 5000 case in the thorough tier); subset selection up to 40 (120) points; "
-                   "reference points weakly above all points; scale classes 2^e, e in -60..60 (ssp: -16..60), as families of 18 classes on 6 (30) ops per kind and at random on 1/4 of the ops; "
+                   "reference points weakly above all points; scale classes 2^e, e in -60..60 (ssp: -16..60), as families of 18 classes on 6 (30) ops per kind and at random on 1/4 of the ops; translation classes +-2^k, k in {20,30,40,45}, on 1/6 of the dom/hv/con/ssp ops; "
                    "a case is non-trivial if it has >= 3 points and (for sort/hv) at least one tie or dominated pair; distinct = distinct op text")
 
 LAKE_TARGETS = ["SharkVerif.Props.C13", "SharkVerif.Props.C13Tol", "drv_c13"]   # Props imports Lemmas/{FastSort,Hypervolume,HV3D,Contrib,DCFront,Subset2D,RatLift,Contrib3DE,HOY}
@@ -126,7 +127,7 @@ def flat(P): return " ".join(str(c) for p in P for c in p)
 
 def is_tok(t):
     """q<den> (coordinates divided by den) or e<k> (coordinates multiplied by 2^k, k may be negative)"""
-    return len(t) > 1 and ((t[0] == "q" and t[1:].isdigit()) or (t[0] == "e" and re.fullmatch(r"-?\d+", t[1:]) is not None))
+    return len(t) > 1 and ((t[0] == "q" and t[1:].isdigit()) or (t[0] in "et" and re.fullmatch(r"-?\d+", t[1:]) is not None))
 
 
 # scale classes 2^e applied to points AND reference (power-of-two scaling: every comparison, difference and product in the
@@ -350,12 +351,13 @@ def shrink_line(line, fails, budget=150):
 
 def classify(ops, res):
     op = ops[0].split()
-    scale = ""
+    scale = ""; shift = ""
     if is_tok(op[0]):
         # scale class in the key: a defect that only shows at some scales is not the same finding as one at scale 1
         if op[0][0] == "e": scale = "@2^" + op[0][1:]
+        if op[0][0] == "t": shift = "+shift"
         op = op[1:]
-    tag = op[0] + (":" + op[1] + ":" + op[2] if op[0] == "con" else "") + (":m" + op[1] if op[0] in ("sort", "hv") else "") + scale
+    tag = op[0] + (":" + op[1] + ":" + op[2] if op[0] == "con" else "") + (":m" + op[1] if op[0] in ("sort", "hv") else "") + scale + shift
     if res.crash and op[0] == "ssp" and "HypervolumeSubsetSelection2D::Point" in res.stderr and \
             re.search(r"std::__(unguarded_partition|introsort_loop|insertion_sort|unguarded_linear_insert)", res.stderr):
         d = parse_line(ops[0])
@@ -474,6 +476,9 @@ def run(ctx):
             elif kind in SCALED and r.chance(1, 4):
                 e = r.choice(scales_for(kind)) if r.chance(2, 3) else r.range(SSP_MIN_SCALE if kind == "ssp" else -60, 60)
                 l = f"e{e} " + l; ctx.hist("scale_class_random", f"{kind}:{'neg' if e < 0 else 'pos'}")
+            elif kind in ("dom", "hv", "con", "ssp") and r.chance(1, 6):
+                # translation class: points and reference shifted by +-2^k (sorts: affine images up to 2^51 above)
+                l = f"t{r.choice(['', '-'])}{r.choice([20, 30, 40, 45])} " + l; ctx.hist("translation_class", kind)
             elif kind in SCALED and sfam[kind] < (6 if ctx.quick else 30) and len(l) < 700 and (kind == "dom" or nontrivial(l)):
                 # scale family: the same op at EVERY scale class (and unscaled)
                 sfam[kind] += 1
